@@ -40,13 +40,15 @@ SIMPLE_DECODERS = [
     "multidecoder.decoders.network.parse_url",
     "multidecoder.decoders.network.find_urls",
     "multidecoder.decoders.path.find_windows_path",
+    "multidecoder.decoders.pe_file.find_pe_files",
+    "multidecoder.decoders.powershell.find_powershell_bytes",
 ]
 SHELL_FUNCS = ["multidecoder.decoders.shell.strip_carets", "multidecoder.decoders.shell.deobfuscate_cmd"]
 
 NOT_UNDER_CONTRACT = (
-    "decoders not (yet) under a deductive contract and covered only by the run-time DecoderOK stand-in: pe_file.find_pe_files (pefile), "
-    "powershell.find_powershell_bytes (xortool floats); network.normalize_percent_encoding / _is_printable / is_ip / parse_ip / parse_ipv6 carry ASSUMED contracts "
-    "(re.sub callbacks, ipaddress, socket); ntpath.normpath / splitext are ASSUMED total and opaque, so the list indexes of find_windows_path into the normalised path are demoted to the stand-in"
+    "every decoder the default registry ships is under a deductive contract (DecoderOK); ASSUMED contracts of library code they sit on: pefile (pe_size), xortool, "
+    "ipaddress / socket (parse_ip, parse_ipv6, is_ip), re.sub with a callback (normalize_percent_encoding), ntpath (normpath, splitext: opaque, so the list indexes of "
+    "find_windows_path into the normalised path are demoted to the run-time stand-in), str.isprintable (_is_printable), struct.unpack_from, urlsplit"
 )
 
 
